@@ -146,6 +146,7 @@ def run(rec, F, exceptions=None, only_adts=None, only_fields=None, field_type_re
             rec.anchor_lost("F5.h", "handle-adt-no-pointer:" + lastseg(h))
     n_impls = 0
     used_exc = set()
+    traits_adts = {im_["adt"] for im_ in trace_impls(F) if im_["adt"]}
     for im in trace_impls(F):
         if not im["adt"]:
             continue
@@ -244,6 +245,8 @@ def run(rec, F, exceptions=None, only_adts=None, only_fields=None, field_type_re
                     rec.inst(R, inst + " on every path", ok=False, loc=fnloc)
                     rec.finding(R, "F5.f/%s/%s/conditional" % (short, exk[1]), "trace() of %s reads the gc-bearing field `%s` only on some of its paths (an early return or a state test skips it): while the object is in that state whatever the field holds is not marked and is freed although still reachable" % (short, fname), loc=fnloc, fn=tr[0]["path"])
                     continue
+            if ok and tr:
+                _element_structs(rec, R, F, bearing, traits_adts, im, fn, short, fname, fty)
             rec.inst(R, inst, ok=ok, loc=fnloc)
             if not ok:
                 rec.finding(R, "F5.f/%s/%s" % (short, exk[1]),
@@ -259,6 +262,44 @@ def run(rec, F, exceptions=None, only_adts=None, only_fields=None, field_type_re
             rec.unan(R, "%s.%s" % exk, "exception entry no longer needed (field is traced or gone)")
     run_paths(rec, F, bearing)
     run_generic_params(rec, F)
+
+
+def _element_structs(rec, R, F, bearing, traits_adts, im, fn, short, fname, fty):
+    """A traced field whose type contains a local struct E that has no Trace impl of its own (the owner traces
+    its elements by hand: `for c in self.property.iter().flatten() { c.class.trace() }`): every gc-bearing field of
+    E must be handed on somewhere in the owner's trace body (its closures, inlined helpers) - read through a place
+    `<element>.g` that is the receiver/argument of a call. Tracing another field of E in its place (a usize has a
+    no-op Trace impl, so that compiles) leaves whatever `g` holds unmarked."""
+    elems = [a for a in F.adts if a in fty and a != im["adt"] and a not in traits_adts and a not in sem.HANDLE_ADTS and a.startswith("laythe")]
+    if not elems:
+        return
+    bodies = [fn] + F.closures_of(fn)
+    handed = set()
+    for b in bodies:
+        for bi, t in b.calls():
+            for a in t["args"]:
+                roots = [b.root_of(a)]
+                if roots[0][0] == "rvalue" and roots[0][1]["k"] == "agg":
+                    roots += [b.root_of(o) for o in roots[0][1]["ops"]]   # the argument tuple of a call through Fn/FnMut
+                for r in roots:
+                    pl = r[1] if r[0] == "place" else None
+                    if pl is None:
+                        continue
+                    for e in pl["p"]:
+                        if e[0] == "field" and len(e) > 3:
+                            handed.add((e[3], e[2]))
+    for E in elems:
+        adt = F.adts[E]
+        if adt["enum"]:
+            continue
+        for v in adt["variants"]:
+            for f in v["fields"]:
+                if not sem.field_is_gc(f, bearing):
+                    continue
+                ok = (E, f["name"]) in handed
+                rec.inst(R, "%s.%s -> element %s.%s" % (short, fname, lastseg(E), f["name"]), ok=ok, loc=fn.loc)
+                if not ok:
+                    rec.finding(R, "F5.e/%s/%s.%s" % (short, lastseg(E), f["name"]), "%s traces its field `%s` element by element, but the gc-bearing field `%s: %s` of the element type %s is never handed to a trace call there: what it holds is not marked while the owner is alive" % (short, fname, f["name"], f["ty"], lastseg(E)), loc=fn.loc, fn=fn.path)
 
 
 # --- F5.p ------------------------------------------------------------------
